@@ -196,6 +196,16 @@ func Check(r *ev.Run, replay string) {
 		Pool(func(y func(progen.Program)) { progen.F1Values(n, pool, y) }, run)
 	}
 	Pool(func(y func(progen.Program)) { progen.F1Prefix(progen.ValuePool(9), y) }, run)
+	// F3 functions, F4 scoping, F5 containers and strings, F6 errors
+	f4ops := 2
+	if r.Thorough() {
+		f4ops = 3
+	}
+	Pool(func(y func(progen.Program)) { progen.F3(y) }, run)
+	Pool(func(y func(progen.Program)) { progen.F4(f4ops, y) }, run)
+	Pool(func(y func(progen.Program)) { progen.F5(y) }, run)
+	Pool(func(y func(progen.Program)) { progen.F6(y) }, run)
+	r.Set("f4_max_operations", f4ops)
 	r.Set("f1_shape_max_operators", shapeOps)
 	r.Set("f1_value_max_operators", valOps)
 	r.Set("f2_node_budget_all", maxAll)
